@@ -68,6 +68,7 @@ type ClientReq struct {
 	App       http.Header
 	Timeout   string // raw header value in the form's timeout header ("" = none)
 	HTTP2     bool
+	HTTP3     bool // the request arrives over HTTP/3 (ignored for gRPC clients, which require HTTP/2)
 	ForceHTTP1 bool
 	DeclLen   bool // declare Content-Length
 	BareCT    bool // gRPC: "application/grpc" without +proto
@@ -256,6 +257,10 @@ func (c *ClientReq) Build(r *rand.Rand) (*BuiltReq, error) {
 	req.Header = hdr
 	if (c.HTTP2 || c.Form == FGRPC) && !c.ForceHTTP1 {
 		req.Proto, req.ProtoMajor, req.ProtoMinor = "HTTP/2.0", 2, 0
+	}
+	if c.HTTP3 && c.Form != FGRPC && !c.ForceHTTP1 {
+		// what an HTTP/3 server (e.g. quic-go) hands to its handler
+		req.Proto, req.ProtoMajor, req.ProtoMinor = "HTTP/3.0", 3, 0
 	}
 	req.ContentLength = -1
 	if c.DeclLen || (len(body) == 0 && method == "GET") {
